@@ -514,7 +514,7 @@ def reSplitOp : List String → Option String
 def readSigTextOp : List String → Option String
   | ua :: upo :: ukw :: t :: [] => do
     let cs ← parseText t
-    some (match readSigText encText (← parseB ua) (← parseB upo) (← parseB ukw) cs with
+    some (match readSigTextIdx encText (← parseB ua) (← parseB upo) (← parseB ukw) cs with
       | none => "outside"
       | some r => s!"ok {showNats r.names} {showPairs r.anns "."} {showNats r.poso} {showNats r.kwo} {showList (r.params.map showItem) ","}")
   | _ => none
